@@ -41,3 +41,7 @@ Proof.
   intros Hn Hm I Ha. destruct (step_src (fun x => x) sp mc pen dist s a) as [E _]. rewrite E.
   exact (step_Inv_any dist n mc (conv s) h sp pen a Hn Hm I Ha).
 Qed.
+
+(* C03 on the translated step: never FIRST, MID with discount 1 or LAST with discount 0 (no truncation) -- any state, any action *)
+Lemma src_step_protocol rnd sparse mc pen dist s a : step_ok 1 false (snd (step mc (reward_model rnd sparse pen dist) s a)) = true.
+Proof. destruct (step_src rnd sparse mc pen dist s a) as [_ E]. rewrite E. apply C03_step_protocol. Qed.
